@@ -88,6 +88,9 @@ type FnEnc struct {
 	curLoops            []*loopInfo // loops containing the current block (this function) + parent's
 	sitePrefix          string
 	curArgs             []Val // arguments of the contract call being applied (assigns anything)
+	curBlock            *ssa.BasicBlock
+	curIdx              int
+	callCount           map[string]int
 	freeVars            []Val
 	defers              []*ssa.Defer
 	blockOf             *ssa.BasicBlock
@@ -470,7 +473,8 @@ func (fe *FnEnc) run(args []Val) {
 			}
 		}
 		// instructions
-		for _, ins := range b.Instrs[len(phis):] {
+		for ii, ins := range b.Instrs[len(phis):] {
+			fe.curBlock, fe.curIdx = b, len(phis)+ii
 			fe.instr(ins)
 		}
 		// terminator
